@@ -9,6 +9,7 @@ import (
 	"math/rand"
 	"runtime"
 	"strings"
+	"sync"
 	"sync/atomic"
 	"time"
 
@@ -466,6 +467,47 @@ func (rn *Runner) Step(in Input) error {
 			rn.queued++
 		}
 		rn.Sink.Emit(Event{"ev": "cq", "m": in.M, "st": rn.state()})
+	case "dupq":
+		// N goroutines call Q at the same moment with an operation of one and the same id, round after round: in any order of
+		// the calls exactly one is registered and the others are recorded as errors (duplicate pending id)
+		g, rounds, bad, first := in.N, 1500, 0, map[string]int{}
+		if g < 2 {
+			g = 4
+		}
+		ok := timed(func() {
+			for r := 0; r < rounds; r++ {
+				id := uint64(100000 + r)
+				st0, _ := rn.c.Status()
+				start := make(chan struct{})
+				var wg sync.WaitGroup
+				for i := 0; i < g; i++ {
+					wg.Add(1)
+					m := concMsg(&Msg{K: "ops", Ops: []Op{{ID: id, Typ: "ADD", Kind: "nh", Key: 1}}})
+					go func() { defer wg.Done(); <-start; rn.c.Q(m) }()
+				}
+				close(start)
+				wg.Wait()
+				st1, _ := rn.c.Status()
+				errs, pend := len(st1.SendErrs)-len(st0.SendErrs), 0
+				for _, p := range st1.PendingTransactions {
+					if po, ok := p.(*client.PendingOp); ok && po.Op.GetId() == id {
+						pend++
+					}
+				}
+				if errs != g-1 || pend != 1 {
+					if bad == 0 {
+						first = map[string]int{"round": r, "errors": errs, "pending": pend}
+					}
+					bad++
+				}
+			}
+		})
+		if !ok {
+			rn.hang("dupq")
+			return nil
+		}
+		rn.Sink.Emit(Event{"ev": "cdupq", "g": g, "rounds": rounds, "bad": bad, "first": first})
+		rn.dead = true // the client is not used further in this sequence
 	case "burst":
 		if rn.strm == nil || !rn.isSending {
 			return nil
